@@ -8,6 +8,8 @@ import sys
 sys.path.insert(0, os.path.dirname(os.path.abspath(__file__)))
 sys.path.insert(0, os.path.join(os.path.dirname(os.path.abspath(__file__)), "..", "tools"))
 import codec  # noqa: E402
+import common  # noqa: E402
+import cppcommon as C  # noqa: E402
 import schema as S  # noqa: E402
 from checklib import Check  # noqa: E402
 
@@ -50,12 +52,44 @@ def main():
         codec.run_value_cases(chk, cases, jobs, "corpus", expr(cases, jobs), on_bad)
     cases, jobs = codec.standard_streams(chk, rng, ["encode"], random_quick=300, random_thorough=5000)
     codec.run_value_cases(chk, cases, jobs, "gen", expr(cases, jobs), on_bad)
+    # ---- C++ vector encoders: encode<little>(), encode<big>(), encode() [native] of the same object
+    quick = chk.tier == "quick"
+    ccases, cjobs, pyres, records, tail_ok, errors = C.canonical_ops(chk, 60 if quick else 1500, 12 if quick else 2,
+                                                                      2 if quick else 3, rng, k=2)
+    C.report_build_errors(chk, ccases, errors)
+    entries = []
+    for i, vi, e, h, o in records:
+        if e != "little" or vi < 0 or not o.get("ok") or not tail_ok.get((i, vi)):
+            continue
+        if not all(k in o for k in ("enc_little", "enc_big", "enc_native")):
+            continue
+        chk.count()
+        if o["enc_native"] != o["enc_little"]:
+            chk.violation("native-%d-%d" % (i, vi), C.case_of(ccases, cjobs, i, vi, {
+                "kind": "C++ encode() [native] differs from encode<little>() on this little-endian host",
+                "enc_native": o["enc_native"], "enc_little": o["enc_little"]}))
+        entries.append((i, vi, o))
+
+    def cex(en, names):
+        i, vi, o = en
+        tt = S.to_coq(ccases[i][2], names)
+        vv = S.value_coq(S.value_from_json(cjobs[i]["values"][vi]))
+        return "(%d, %d, spec_mirror_case %s %s %s %s)" % (i, vi, tt, vv, codec.hex_coq(o["enc_little"]), codec.hex_coq(o["enc_big"]))
+
+    work = common.scratch("c19cpp")
+    files = codec.write_case_files(work, "cpp", entries, cex)
+    for i, vi, r in codec.eval_case_files(files):
+        o = [x for x in entries if x[0] == i and x[1] == vi][0][2]
+        chk.violation("cppmirror-%d-%d" % (i, vi), C.case_of(ccases, cjobs, i, vi, {
+            "kind": "C++ encode<little>() / encode<big>() are not scalar-wise mirrors with zero padding",
+            "enc_little": o["enc_little"], "enc_big": o["enc_big"], "result": r[:8]}))
+    chk.coverage["cpp_objects_checked"] = len(entries)
     chk.coverage["rule"] = ("same schema/value streams as C01; metamorphic oracle needing no expected bytes: encode('<') and "
                             "encode('>') must have equal length, each scalar segment (per the spec's segment map) byte-reversed, "
-                            "every padding byte zero in both; plus the model correspondence. distinct_nontrivial as in C01.")
+                            "every padding byte zero in both; plus the model correspondence. C++ stage: objects decoded from canonical bytes by the compiled generated codec, their encode<little>()/encode<big>() vectors checked by the same mirror oracle and encode() [native] == encode<little>(). distinct_nontrivial as in C01.")
     chk.sample({"schema": S.to_prophy(cases[len(cases) // 3][2]), "value": jobs[len(cases) // 3]["values"][-1]})
-    chk.assumptions += ["C++ vector encoders (encode<little>/<big>/native) are checked by the C++ stage (see C03 driver); "
-                        "the theorem C19_python is about the Python encoder model"]
+    chk.assumptions += ["the theorem C19_python is about the Python encoder model; the C++ vector encoders are decided by the "
+                        "metamorphic run only (g++ 12, x86-64, little-endian host)"]
     return chk.finish()
 
 
